@@ -854,3 +854,49 @@ def _note_node(node):
 
 
 """ + _GEN_HEAD, 'OK', name='(benign) append then len() inside the module lock')
+
+# ---- round 3 -------------------------------------------------------------------------------------
+_TZN_OLD = """    tz_rmap = get_tz_rmap(version=version)
+    if dt.tzinfo is None:
+        raise ValueError('%r has no timezone' % dt)
+"""
+for _p in ('C02', 'C17', 'C01', 'C06'):
+    mut(_p, 'zoneinfo', _TZN_OLD, _TZN_OLD + """
+    if dt.utcoffset() == datetime.timedelta(0):
+        return 'UTC'
+""", name='zero-offset shortcut before the mapped-zone lookup')
+_B64 = """                return binascii.b2a_base64(self.data, newline=False).decode("ascii")"""
+mut('C06', 'datatypes', _B64, """                return base64.encodebytes(self.data).decode("ascii").rstrip('\\n')""", name='b64 payload wrapped into 76-char lines')
+mut('C06', 'datatypes', _B64, """                return base64.urlsafe_b64encode(self.data).decode("ascii")""", name='b64 payload in the url-safe alphabet')
+mut('C06', 'datatypes', _B64, """                return base64.b64encode(self.data).decode("ascii")""", 'OK', name='refactor: base64.b64encode for the b64 payload')
+mut('C06', 'datatypes', _B64, """                return base64.encodebytes(self.data).decode("ascii").replace('\\n', '')""", 'OK', name='refactor: encodebytes with every newline removed')
+_DEC = """    if isinstance(grid_str, six.binary_type):
+        grid_str = grid_str.decode(encoding=charset)
+"""
+for _p in ('C08', 'C01', 'C03'):
+    mut(_p, 'parser', _DEC, _DEC + """    if isinstance(grid_str, six.text_type):
+        grid_str = unicodedata.normalize('NFC', grid_str)
+""", name='document text NFC-normalised before parsing')
+mut('C08', 'parser', _DEC, _DEC + """    if isinstance(grid_str, six.text_type):
+        grid_str = grid_str.replace('\\t', ' ')
+""", name='tabs replaced in the document text before parsing')
+mut('C08', 'jsonparser', "        return Uri(match.group(1))", "        return Uri(URI_META.sub(r'\\1', match.group(1)))", name='JSON URI payload unescaped by the reader')
+mut('C05', 'jsonparser', "        return Bin(match.group(1))", "        return Bin(match.group(1).strip())", name='JSON Bin payload stripped')
+mut('C02', 'jsonparser', "        return Uri(match.group(1))", "        uri_text = match.group(1)\n        return Uri(uri_text)", 'OK', name='refactor: local for the URI payload')
+mut('C09', 'parser', "TRAILING_NL_RE = re.compile(r'(?:\\r?\\n)+$')", "TRAILING_NL_RE = re.compile(r'(?:\\s*\\r?\\n)+$')", name='trailing-newline regex with nested repeat (exponential backtracking)')
+mut('C12', 'datatypes', "            return PintQuantity(value, to_pint(unit))", "            unit = to_pint(unit)\n            if unit and unit not in ureg:\n                ureg.define('%s = []' % unit)\n            return PintQuantity(value, unit)", name='unknown units registered while building a literal')
+mut('C12', 'datatypes', "            return PintQuantity(value, to_pint(unit))", "            pint_unit = to_pint(unit)\n            return PintQuantity(value, pint_unit)", 'OK', name='refactor: local for the translated unit')
+_GLEN = """    def __len__(self):
+        '''
+        Return the number of rows in the grid.
+        '''"""
+mut('C14', 'grid', _GLEN, """    def __contains__(self, row):
+        if isinstance(row, dict) and "id" in row:
+            return self.get(row["id"]) == row
+        return row in self._row
+
+""" + _GLEN, name='membership answered from the id index')
+mut('C14', 'grid', _GLEN, """    def __contains__(self, row):
+        return row in self._row
+
+""" + _GLEN, 'OK', name='refactor: explicit __contains__ on the row list')
